@@ -1,14 +1,15 @@
 (** C18 — assembly of the statements used in Properties.v. *)
 From Coq Require Import List Arith ZArith NArith Bool Lia.
 From C33 Require Import C18.Model C18.Spec C18.ProofsSeq C18.ProofsPar C18.ProofsBranch
-  C18.ProofsComp1 C18.ProofsComp2 C18.ProofsBind C18.ProofsMulti.
+  C18.ProofsComp1 C18.ProofsComp2 C18.ProofsBind C18.ProofsMulti C18.ProofsMut C18.ProofsBind2.
 Import ListNotations.
 Open Scope nat_scope.
 
 Definition parallel_eq_sequential_thm := parallel_eq_sequential.
 Definition root_is_tree_root_thm := root_is_spec_root.
 Definition related_same_root_thm := related_same_root.
-Definition binding_thm := binding.
+Definition binding_thm := binding_mutated.
+Definition pair_flagged_thm := pair_flagged.
 Definition child_roots_verify_thm := child_roots_verify.
 Definition computation_root_thm := computation_root.
 Definition branch_is_tree_branch_thm := branch_is_tree_branch.
